@@ -345,6 +345,52 @@ def t3(workdir):
     return r.stdout
 
 
+def t4(workdir):
+    """what the storage hints do, observed on the library itself (tools/t4_probe.cpp)"""
+    if not LIB_OBJS:
+        return None
+    objs, hh = LIB_OBJS[:-1], LIB_OBJS[-1]
+    probe = os.path.join(HERE, "t4_probe.cpp")
+    key = hashlib.sha256((hh + "".join(sorted(os.path.basename(o) for o in objs)) + open(probe).read()).encode()).hexdigest()[:24]
+    cached = os.path.join(CACHE, "t4_" + key + ".txt")
+    if os.path.exists(cached):
+        return open(cached).read()
+    exe = os.path.join(workdir, "t4_probe")
+    r = sh(["g++", "-std=gnu++14", "-msse4", "-O0", "-I", os.path.join(REPO, "src"), probe] + objs + ["-lz", "-llzma", "-lpthread", "-o", exe])
+    if r.returncode != 0:
+        sys.stderr.write("T4: the hint probe does not compile against the working tree\n" + r.stderr[-3000:])
+        return None
+    r = sh(["timeout", "120", exe])
+    if r.returncode != 0 or "ERROR" in r.stdout:
+        sys.stderr.write("T4: the hint probe failed\n" + (r.stdout + r.stderr)[-3000:])
+        return None
+    tmp = cached + ".tmp%d" % os.getpid()
+    open(tmp, "w").write(r.stdout)
+    os.replace(tmp, cached)
+    for f in glob.glob(os.path.join(CACHE, "t4_*.txt")):
+        if f != cached and os.path.getmtime(f) < __import__("time").time() - 3600:
+            os.remove(f)
+    return r.stdout
+
+
+def emit_hints(text):
+    L = ["/- GENERATED by tools/translate.py (T4) from the working tree of /repo - do not edit.",
+         "   One query/response with every member set, one malformed message and one address event were buffered into the",
+         "   library's exporter under each hint configuration and read back with the library's reader (tools/t4_probe.cpp). -/",
+         "namespace CdnsVerif.Generated", "",
+         "/-- (query_response_hints, query_response_signature_hints, rr_hints, other_data_hints, which members came back:",
+         "    the 39 members of GenericQueryResponse in declaration order, ttl and rdata of the first query answer,",
+         "    a malformed message, an address event) -/",
+         "def hintProbes : List (Nat × Nat × Nat × Nat × List Bool) := ["]
+    rows = []
+    for line in text.splitlines():
+        p = line.split()
+        if p[0] == "HINT":
+            rows.append(f"  ({p[1]}, {p[2]}, {p[3]}, {p[4]}, [" + ", ".join("true" if c == "1" else "false" for c in p[5]) + "])")
+    L.append(",\n".join(rows)); L.append("]"); L.append(""); L.append("end CdnsVerif.Generated")
+    return "\n".join(L) + "\n"
+
+
 def lean_sig(sg):
     m = re.fullmatch(r"u(\d+)", sg)
     if m:
@@ -450,6 +496,11 @@ def main():
             ok = False
         else:
             write_if_changed(os.path.join(GEN, "Schemas.lean"), emit_schemas(sc))
+        hp = t4(work) if g is not None else None
+        if hp is None:
+            ok = False
+        else:
+            write_if_changed(os.path.join(GEN, "Hints.lean"), emit_hints(hp))
     finally:
         shutil.rmtree(work, ignore_errors=True)
     return 0 if ok else 2
